@@ -394,7 +394,7 @@ def plan(ctx, bins, corp, priv_bins):
     rng = random.Random(ctx.seed + 99)
     shards = []
     hang_shards = []
-    req_to = 5000
+    req_to = 8000
     for fl in bins:
         b = fl
         scale = {"plain": 1.0, "asan": 0.2 if not thorough else 0.25, "tsan": 0.12}[fl]
@@ -408,7 +408,7 @@ def plan(ctx, bins, corp, priv_bins):
         inproc_extra = ["--wait-ms", 250 * slow, "--long-wait-ms", 2000 * slow, "--cpu-limit-ms", 4000 * slow]
         # server, in process: every single cut of every valid stream
         shards += split_shards(fl, "server-inproc", sv, "sv", 14 if fl == "plain" else 10, inproc_extra)
-        shards += split_shards(fl, "server-inproc", sh_safe + sm, "shm", 8 if fl == "plain" else 4, inproc_extra)
+        shards += split_shards(fl, "server-inproc", sh_safe + sm, "shm", 8, inproc_extra)
         shards += split_shards(fl, "server-inproc", corp["sf"] + (corp["sc"] if fl != "tsan" else corp["sc"][:1]), "sfc", 5, inproc_extra)
         # server, over loopback
         nsock = int((1500 if thorough else 160) * scale) + 24
@@ -416,7 +416,7 @@ def plan(ctx, bins, corp, priv_bins):
         sock += [socket_variant(s, rng, 2, [1] if i % 2 == 0 else []) for i, s in enumerate(sh_safe)]
         sock += [socket_variant(s, rng, 1, []) for s in sm[:40]]
         sock += corp["sf"][:3]
-        shards += split_shards(fl, "server-socket", sock, "ss", 6 if fl == "plain" else 3, ["--wait-ms", 400 * slow, "--long-wait-ms", 2500 * slow])
+        shards += split_shards(fl, "server-socket", sock, "ss", 6, ["--wait-ms", 400 * slow, "--long-wait-ms", 2500 * slow])
         # client over loopback
         cl_extra = ["--req-timeout-ms", req_to, "--cpu-limit-ms", 4000 * slow]
         shards += split_shards(fl, "client-socket", cv, "cv", 8 if fl == "plain" else 5, cl_extra)
@@ -582,6 +582,8 @@ def run(ctx):
                     "server-socket:multi_segment_framings", "client-socket:exchanges", "valid_streams_judged", "hostile_cases_judged",
                     "flood_cases_judged", "mutated_cases_judged", "streams_with_every_single_cut_point", "pipelined_streams",
                     "client_streams_with_interim_1xx")
+    walls = sorted(((round(sum(rr.wall for rr in sh.rrs), 1), sh.tag, len(sh.streams)) for sh in done), reverse=True)
+    ctx.extra["slowest_shards_s"] = walls[:8]
     ctx.extra["corpora"] = {k: len(v) for k, v in corp.items()}
     ctx.extra["shards"] = len(shards) + len(hang_shards)
 
@@ -598,10 +600,20 @@ def replay(ctx, path):
         for s in lst:
             if s.id == d["stream"]:
                 st = s
-    if st is None:
-        raise vf.HarnessFailure("stream %s not found in the regenerated corpora" % d["stream"])
     mode, flavor = d["mode"], d.get("flavor", "plain")
-    if mode != "server-inproc":
+    stored = d.get("case_line", "")
+    if st is None or (stored and len(stored) < 20000 and st.line().split("\t")[6] != stored.split("\t")[6]):
+        # the generator changed since the replay file was written: re-run the stored bytes verbatim;
+        # without the message list only the robustness clauses can be judged (observation is printed)
+        f = stored.split("\t")
+        if len(f) < 7:
+            raise vf.HarnessFailure("stream %s not found in the regenerated corpora and no stored case line" % d["stream"])
+        st = g.Stream(f[0], "client" if mode.startswith("client") else "server", "m")
+        st.hclass, st.expect_n, st.method, st.end, st.segspec, st.wire = "replayed-verbatim", -1, f[3], f[4], f[5], bytes.fromhex(f[6])
+        if len(f) >= 9:
+            st.kind, st.flood_unit, st.flood_total = "f", bytes.fromhex(f[7]), int(f[8])
+        print("note: stream regenerated from the stored bytes (generator changed); robustness clauses only")
+    elif mode not in ("server-inproc", "client-inproc"):
         st = socket_variant(st, random.Random(ctx.seed + 99), 5, [1] if mode == "server-socket" else []) if st.kind != "f" else st
     binary = vf.build("c15_http", flavor) if mode != "client-inproc" else vf.build("c15_http_priv", flavor, extra_flags=priv_flags())
     sh = Shard(flavor, mode, [st], "replay", ["--req-timeout-ms", 8000] if mode == "client-socket" else [], 300)
